@@ -4,8 +4,20 @@ def J(nentries, kinds, uptime, bare):
             "reach": ["end", "present"] + (["never-present"] if bare == 0 else [])}
 
 
+def J2(nentries, kinds, b1, b2):
+    reach = ["end"] + (["first-never"] if b1 == 0 else []) + (["second-never"] if b2 == 0 else [])
+    return {"name": "two-e%d-k%d-b%d%d" % (nentries, kinds, b1, b2), "func": "VerifHarness_Series2",
+            "params": {"nentries": nentries, "kinds": kinds, "bare1": b1, "bare2": b2}, "unwind": 2100, "reach": reach}
+
+
+def jobs2(tier):
+    if tier == "quick":
+        return [J2(0, 0, 0, 0), J2(1, 1, 0, 0), J2(2, 3, 0, 0), J2(1, 1, 1, 0), J2(1, 1, 0, 1)]
+    return [J2(n, k, b1, b2) for n in range(3) for k in range(1 << n) for b1 in (0, 1) for b2 in (0, 1)]
+
+
 def jobs(tier):
-    out = []
+    out = jobs2(tier)
     if tier == "quick":
         for (n, k) in [(0, 0), (1, 0), (1, 1), (2, 1), (2, 3)]:
             out.append(J(n, k, 0, 0))
@@ -20,10 +32,10 @@ def jobs(tier):
 
 
 PROP = {
-    "level_text": "Thin claim (DESIGN.md section 4, C16): bounded symbolic execution of the real SeriesCheck.Check (with getNonFallbackSelectors/LabelsSource, stripLabels, instantSeriesCount, FindGaps, checkOtherServer, textAndSeverity, comment handling) on the one-selector rule `foo{job=\"x\"}` against an abstract server: for every value of count(selector) and every content of up to two other rules in the checked set the solver shows (a) count > 0 => no problem, (b) count = 0 and no sample of the bare metric in the lookback window and no healthy recording rule of that name => exactly one problem of severity Bug, (c) such a recording rule downgrades it to Information.",
+    "level_text": "Thin claim (DESIGN.md section 4, C16): bounded symbolic execution of the real SeriesCheck.Check (with getNonFallbackSelectors/LabelsSource, stripLabels, instantSeriesCount, FindGaps, checkOtherServer, textAndSeverity, comment handling) on the one-selector rule `foo{job=\"x\"}` against an abstract server: for every value of count(selector) and every content of up to two other rules in the checked set the solver shows (a) count > 0 => no problem, (b) count = 0 and no sample of the bare metric in the lookback window and no healthy recording rule of that name => exactly one problem of severity Bug, (c) such a recording rule downgrades it to Information. Two-selector jobs (`foo / bar`, VerifHarness_Series2) decide the same three claims per selector, attributing each problem to the selector whose columns its first diagnostic carries: the verdict on one selector does not depend on what was found for the other.",
     "level_note": "The server is an abstract state that answers pint's probes by query TEXT (count(selector), count(bare metric), count(uptime metric)); that pint's query text asks the right PromQL question is outside the claim (no PromQL evaluation). One concrete selector; the clock is constant during a check run; default settings, no control comments. PromQL printing of the concrete selector is an engine model validated by native replay of witness models.",
     "runs": [{"pkg": "./internal/checks", "harness": ["harness/C16/series.go"], "aux": {"./internal/promapi": ["harness/C16/server.go"]}, "intmode": True, "jobs": jobs}],
-    "bounds": {"selectors": "1 concrete (foo{job=\"x\"})", "other rules in the checked set": "0..2, kind by job parameter, name an atom over {foo, out, foo:sum, other}, broken or not", "count": "symbolic 0..1e6",
+    "bounds": {"selectors": "1 concrete (foo{job=\"x\"}), or 2 bare ones in one binary expression (foo / bar)", "other rules in the checked set": "0..2, kind by job parameter, name an atom over {foo, out, foo:sum, other}, broken or not", "count": "symbolic 0..1e6",
                "uptime answer": "none / whole window / error", "bare-metric history": "0, 1 or 2 stretches"},
     "assumptions": ["time.Now is constant during one check run (symbolic run only)", "default promql/series settings, no disable/snooze/rule-set comments, no other Prometheus servers in the context"],
     "outside": ["PromQL evaluation of pint's probing queries (the real-evaluator half of the property)", "steps 3-8 of the decision tree beyond reaching them without a crash", "FindGaps/Overlaps on symbolic ranges (C13)"],
